@@ -358,6 +358,14 @@ func (t *tr) nodeInstrs(f *fn, n ast.Node, out *[]instr) {
 		case *ast.GoStmt:
 			goCall = s.Call
 		case *ast.CallExpr:
+			if id, ok := s.Fun.(*ast.Ident); ok && id.Name == "close" && len(s.Args) == 1 {
+				// close(x.f) of a channel that is also sent to: the idiom is "unpublish the owner under the mutex, THEN close";
+				// a close that no Unlock precedes in the function body comes before the unpublishing critical section (or
+				// inside one): it counts as an access of the pseudo field, to be covered by the senders' mutex
+				if b, ok := s.Args[0].(*ast.SelectorExpr); ok && !f.unlockBefore(s.Pos()) {
+					chanOps[b] = true
+				}
+			}
 			if id, ok := s.Fun.(*ast.Ident); ok && id.Name == "delete" && len(s.Args) > 0 {
 				if b := baseSel(s.Args[0]); b != nil {
 					writes[b] = true
@@ -498,6 +506,23 @@ func (t *tr) target(pkg *packages.Package, e ast.Expr) *fn {
 		}
 	}
 	return nil
+}
+
+// unlockBefore: does the function body contain an Unlock() call at a position before p?
+func (f *fn) unlockBefore(p token.Pos) bool {
+	found := false
+	ast.Inspect(f.body, func(n ast.Node) bool {
+		if _, ok := n.(*ast.FuncLit); ok && n.Pos() != f.body.Pos() {
+			// nested literals are functions of their own
+		}
+		if call, ok := n.(*ast.CallExpr); ok && call.Pos() < p {
+			if se, ok := call.Fun.(*ast.SelectorExpr); ok && (se.Sel.Name == "Unlock" || se.Sel.Name == "RUnlock") {
+				found = true
+			}
+		}
+		return true
+	})
+	return found
 }
 
 func (f *fn) rootedAtFresh(e ast.Expr) bool {
